@@ -21,6 +21,14 @@ ASSUMPTIONS = ['visibility: values_changed needs verbose_level >= 1, iterable_it
 SENT = '⁣STMT⁣'
 
 
+def same_digest(a, b):
+    from deepdiff import DeepHash
+    try:
+        return DeepHash(a)[a] == DeepHash(b)[b]
+    except Exception:
+        return False
+
+
 def walk_checks(ctx, case, t1, t2, tree):
     """every node: t1/t2 are the sub-objects of the inputs; up/down consistent; root holds originals"""
     from deepdiff.helper import notpresent
@@ -65,7 +73,13 @@ def walk_checks(ctx, case, t1, t2, tree):
                             elif isinstance(parent, (dict, list, tuple)):
                                 at = parent[rel.param]
                                 # with repeated items the order-ignoring diff reports every index with the first equal object
-                                dup_ok = isinstance(parent, (list, tuple)) and any(x is child for x in parent) and strict_eq(at, child)
+                                # (the first one: the representative of a group never comes from a later index); the group is formed by digest, so under
+                                # ignore_order the representative can also be a permutation of the item that sits there (finding F51)
+                                earlier = isinstance(parent, (list, tuple)) and isinstance(rel.param, int) and any(x is child for x in parent[:rel.param + 1])
+                                dup_ok = earlier and strict_eq(at, child)
+                                if earlier and not dup_ok and case['cfg'].get('ignore_order') and same_digest(at, child):
+                                    dup_ok = True
+                                    ctx.count('F51_region:an index of a group reported with the value of its first member')
                                 # report_repetition: an item repeated in t2 carries the t1 index on its t2-side relationship (by design:
                                 # 'we want the child_relationship_param2 only if there is no repetition'); it is still an item of the parent
                                 rep_ok = (side == 't2' and case['cfg'].get('report_repetition') and case['cfg'].get('ignore_order')
@@ -200,6 +214,28 @@ def run(ctx, impl_only=False):
         pairs.append((w(xs), w(ys)))
     pairs += [({'a': {1, 2}, 'b': {1, 2}}, {'a': {1, 2, 3}, 'b': {1, 2, 3}}), ({'a': {1, 2, 3}, 'b': {2, 3}}, {'a': {1, 2}, 'b': {2}}),
               ([{'x', 'y'}, {'x'}], [{'x', 'y', 'z'}, {'x', 'z'}]), ({'p': frozenset({1}), 'q': frozenset({1, 5})}, {'p': frozenset({1, 7}), 'q': frozenset({1, 5, 7})})]
+    # items that the order-ignoring comparison puts in one group (equal digests) without being equal: permutations of one sub-list, sub-lists
+    # that differ only in repetition; the group is removed, added, or paired with something else
+    for _ in range(max(12, n // 8)):
+        items = ctx.rng.sample([1, 2, 3, 'a', 'b', 5.5], ctx.rng.randint(2, 3))
+        perm = list(items); ctx.rng.shuffle(perm)
+        if perm == items:
+            perm = items[::-1]
+        variants = [list(items), perm, items + [items[0]]]
+        grp = [copy.deepcopy(v) for v in ctx.rng.sample(variants, ctx.rng.randint(2, 3))]
+        mk_ = ctx.rng.choice([list, tuple])
+        grp = [mk_(v) for v in grp]
+        rest = [ctx.rng.choice(['k', 7, None])]
+        a = grp + rest
+        c = ctx.rng.random()
+        if c < 0.35:
+            b = list(rest)
+        elif c < 0.7:
+            b = rest + [mk_(items + ['new'])]
+        else:
+            b = rest + [copy.deepcopy(grp[-1])]
+        w = ctx.rng.choice([lambda v: v, lambda v: {'k': v, 'z': 1}, lambda v: [0, v]])
+        pairs.append((w(a), w(b)) if ctx.rng.random() < 0.6 else (w(b), w(a)))
     reqs = []
     for (t1, t2) in pairs:
         for io, rep in ((False, False), (True, False), (True, True)):
@@ -265,7 +301,11 @@ def run(ctx, impl_only=False):
         b = _dt.datetime(2021, 5, 6)
         lv = DeepDiff([_dt.datetime(2020, 1, 1, 2, 3)], [b], view='tree')['values_changed'][0]
         return lv.t2 is b or lv.t2 == b
-    core.witnesses(ctx, ID, {'F42': f42})
+    def f51():
+        t2 = [[3, 1, 'b'], [3, 1, 'b', 3], [1, 3, 'b'], 7]
+        d = DeepDiff([7], t2, ignore_order=True, report_repetition=True)
+        return all(t2[int(p[5:-1])] == v for p, v in d.get('iterable_item_added', {}).items())
+    core.witnesses(ctx, ID, {'F42': f42, 'F51': f51})
     if not impl_only:
         FAM.compare_with_model(ctx, reqs)
 
